@@ -1,5 +1,5 @@
 /-
-  Statrs.Draft.C09.VectorDomain (to live beside Statrs/Spec/Domain.lean) — the DOCUMENTED and the
+  Statrs.Spec.VectorDomain (to live beside Statrs/Spec/Domain.lean) — the DOCUMENTED and the
   IMPLEMENTED parameter domains of the vector / matrix constructors of statrs, transcribed from
   the doc comments in /repo/src/distribution/{categorical, multinomial, dirichlet,
   multivariate_normal, multivariate_students_t}.rs.  Conventions as in Statrs/Spec/Domain.lean:
@@ -14,11 +14,11 @@
   (`xsum`: `0.0`, then `+=` in order), compared with IEEE `==`.  Positive-definiteness has no
   meaning for matrices with non-real entries; the matrix constructors take "nalgebra's
   `Cholesky::new` succeeds" (`LA.choleskyNew … ≠ none`, the model of that routine) as the
-  definition, and Statrs/Draft/C09/Cholesky.lean proves that this IS positive-definiteness for
+  definition, and Statrs/Props/C09/Cholesky.lean proves that this IS positive-definiteness for
   real 1×1 and 2×2 matrices.
 -/
 import Statrs.Spec.Domain
-import Statrs.Draft.Lemmas.C09Vector
+import Statrs.Lemmas.C09Vector
 namespace Statrs.Spec.Dom
 open Statrs Statrs.Gen Statrs.Model Statrs.Spec Statrs.Spec.XR Statrs.Lemmas.C09Vector
 open Classical
